@@ -57,4 +57,6 @@ var ghostNodeOf func(e kv.Entry) *ziptree.Node
 //@           return has(l.tables[j].zt.view, string(key)) && ghostNodeOf(result0) == l.tables[j].zt.view[string(key)] &&
 //@                  forall(j+1, len(l.tables), func(m int) bool { return !has(l.tables[m].zt.view, string(key)) }) })
 //@   loop 0:
-//@     invariant forall(0, idx_, func(j int) bool { return !has(coll_[j].zt.view, string(key)) })
+//@     invariant -1 <= i && i < len(tables) && tables == l.tables
+//@     invariant forall(i+1, len(tables), func(j int) bool { return !has(tables[j].zt.view, string(key)) })
+//@     decreases i + 1
